@@ -557,7 +557,7 @@ pub fn run(ctx: &mut Ctx) {
 
     ctx.enumerate("status_u16", 0u16..=u16::MAX, true, check_u16);
 
-    let n = ctx.tier.pick(5000, 100000);
+    let n = ctx.tier.pick(30000, 500000);
     ctx.phase("into_response", n, err_case_strategy(), check_err);
 
     // live
@@ -571,7 +571,7 @@ pub fn run(ctx: &mut Ctx) {
         LiveIds { addr: server.local_addr(), server, all_ids: Mutex::new(HashSet::new()) }
     };
     let _ = discard_log;
-    let n = ctx.tier.pick(400, 8000);
+    let n = ctx.tier.pick(1500, 20000);
     {
         let rt = tokio::runtime::Builder::new_current_thread().enable_all().build().unwrap();
         let strat = (proptest::collection::vec(req_strategy(), 1..24), any::<bool>())
